@@ -68,7 +68,9 @@ impl TypeChecker {
         }
 
         // Enforce required fields (those without defaults) are present.
-        for (field_name, info) in fields {
+        let mut sorted_fields: Vec<_> = fields.iter().collect();
+        sorted_fields.sort_by(|a, b| a.0.cmp(b.0));
+        for (field_name, info) in sorted_fields {
             if !info.has_default && !provided.contains_key(field_name.as_str()) {
                 self.errors.push(errors::missing_required_constructor_field(
                     type_name, field_name, call_span,
